@@ -56,8 +56,23 @@ def gen_unit(rng):
     else:
         kind = {"filter": "bool", "sort": rng.choice(("num", "str", "any")), "group": "str", "split": rng.choice(("arr:num", "arr:str", "arr:obj")),
                 "macro": rng.choice(eg.KINDS)}[mode]
-        sc = plain_scope().macro_body() if mode == "macro" else plain_scope()
+        sc = plain_scope()
+        u["pre"] = []
+        if mode != "split" and rng.random() < 0.4:
+            # the same comparison on the elements of a split record: the expression may then reach the record through ^
+            src, ek = rng.choice(((".objs", "eobj"), (".arr", "num"), (".strs", "str"), ("(push [] .)", "rec")))
+            u["pre"] = ["--split-by=" + src]
+            sc = sc.push(ek)
+        if mode == "macro":
+            sc = sc.macro_body()
         e = g.gen(kind, sc)
+        if u["pre"]:
+            from .c12 import uses_parent
+            for _ in range(8):
+                if uses_parent(e):
+                    break
+                e = g.gen(kind, sc)
+            u["uses_parent"] = uses_parent(e)
         u["expr"] = eg.show(e)
         u["desc"] = rng.random() < 0.4
     u["funcs"] = sorted(g.used)
@@ -142,8 +157,13 @@ def run_unit(ctx, unit):
         st.see("nontrivial", ("cache", hash(data) & 0xFFFFFF))
         return
     e = unit["expr"]
+    pre = unit.get("pre", [])
+    if pre:
+        st.count("position_comparisons_under_split")
+        if unit.get("uses_parent"):
+            st.count("position_comparisons_reaching_parent")
     if mode == "filter":
-        obs = run([core.Case(["--select=" + e + "=c", "--select", ".=v"], data), core.Case(["--filter=" + e], data)])
+        obs = run([core.Case(pre + ["--select=" + e + "=c", "--select", ".=v"], data), core.Case(pre + ["--filter=" + e], data)])
         if obs is None:
             return
         st.count("conclusive")
@@ -157,8 +177,8 @@ def run_unit(ctx, unit):
     elif mode in ("sort", "group"):
         opt = "--sort-by" if mode == "sort" else "--group-by"
         d = " DESC" if (unit["desc"] and mode == "sort") else ""
-        obs = run([core.Case(["--select=" + e + "=c", "--select", ".=v", opt + "=" + e + d], data),
-                   core.Case(["--select=" + e + "=c", "--select", ".=v", opt + "=/c/" + d], data)])
+        obs = run([core.Case(pre + ["--select=" + e + "=c", "--select", ".=v", opt + "=" + e + d], data),
+                   core.Case(pre + ["--select=" + e + "=c", "--select", ".=v", opt + "=/c/" + d], data)])
         if obs is None:
             return
         st.count("conclusive")
@@ -185,11 +205,17 @@ def run_unit(ctx, unit):
         if want:
             st.see("nontrivial", ("split", e))
     elif mode == "macro":
-        obs = run([core.Case(["--select=" + e + "=c"], data), core.Case(["--set", "@mm=" + e, "--select", "@mm=c"], data),
-                   core.Case(["--select", "(define \"mm\" %s @mm)=c" % e], data)])
+        obs = run([core.Case(pre + ["--select=" + e + "=c"], data), core.Case(pre + ["--set", "@mm=" + e, "--select", "@mm=c"], data),
+                   core.Case(pre + ["--select", "(define \"mm\" %s @mm)=c" % e], data),
+                   core.Case(pre + ["--select", ".=first", "--select=" + e + "=c"], data)])
         if obs is None:
             return
         st.count("conclusive")
+        later = [dict((k, v) for k, v in r.items() if k != "first") for r in rows_of(obs[3])]
+        if [jm.dumps(r) for r in later] != [jm.dumps(r) for r in rows_of(obs[0])]:
+            bad("select-position", "the expression evaluates differently in a --select that follows another --select",
+                {"expr": e, "pre": pre, "first_select": obs[0].stdout[:500], "second_select": obs[3].stdout[:500]})
+            return
         if obs[0].stdout != obs[1].stdout or obs[0].stdout != obs[2].stdout:
             bad("macro-vs-select", "the expression evaluates differently as a macro", {"expr": e, "direct": obs[0].stdout[:500], "preset_macro": obs[1].stdout[:500],
                                                                                       "define": obs[2].stdout[:500]})
